@@ -140,6 +140,8 @@ class ModelDriver:
             raise Infra('driver executable missing (lake build driver failed?)')
 
     def run(self, lines, timeout=3000):
+        if not lines:
+            return []
         data = '\n'.join(lines) + '\n'
         p = subprocess.run([DRIVER], input=data, stdout=subprocess.PIPE, stderr=subprocess.PIPE,
                            text=True, timeout=timeout)
